@@ -83,6 +83,8 @@ def account(chk, obs):
 
     def walk(t, depth):
       kinds.add(t['h'])
+      if t['h'] == 'obj' and t.get('c'):
+        kinds.add('subclass_object')
       if t['h'] in ('oneof', 'manyof'):
         if depth > 0:
           kinds.add('nested_choice')
@@ -93,6 +95,8 @@ def account(chk, obs):
       for c in t.get('items', []):
         walk(c, depth)
     walk(o['tmpl'], 0)
+    if not (kinds & {'oneof', 'manyof', 'float', 'custom'}):
+      kinds.add('constant_template')
     for k in kinds:
       chk.count('kind:' + k)
 
@@ -134,7 +138,7 @@ def run(chk):
   c = chk.counters
   for need in ['templates', 'where:all', 'where:oneof', 'where:choices', 'where:many3', 'decoded', 'iterated_values',
                'iterations', 'decoded_with_placeholder_left', 'encoded_ok', 'kind:oneof', 'kind:manyof', 'kind:float',
-               'kind:custom', 'kind:dict', 'kind:list', 'kind:obj', 'kind:tobj', 'kind:conditional', 'kind:nested_choice',
+               'kind:custom', 'kind:dict', 'kind:list', 'kind:obj', 'kind:tobj', 'kind:ref', 'kind:subclass_object', 'kind:constant_template', 'kind:conditional', 'kind:nested_choice',
                'typed_templates_bound', 'typed_templates_refused', 'purity_stages', 'histories_filtered_then_unfiltered',
                'histories_unfiltered_then_filtered', 'root_placeholder_purity', 'root_placeholder_purity_filtered']:
     chk.require(c.get(need, 0) > 0, f'vacuous: counter {need} is zero')
